@@ -147,6 +147,29 @@ func runC16(r *vk.Run) {
 			since = d
 			sinceS = sp(txt)
 		}
+		if hasSince && rng.Chance(1, 4) {
+			// "now" as a clock in a zone with daylight saving reads it, the window spanning a switch, --since a
+			// whole number of days: a duration is a duration, a day is 24 hours
+			if loc, err := time.LoadLocation(vk.Pick(rng, []string{"Europe/Berlin", "America/New_York", "Australia/Sydney"})); err == nil {
+				txt := vk.Pick(rng, []string{"1d", "2d", "24h", "1w", "7d", "48h", "3d"})
+				d, _ := promDur(txt)
+				since, sinceS = d, sp(txt)
+				year := 2001 + rng.Intn(150)
+				month := vk.Pick(rng, []time.Month{time.March, time.October, time.November, time.April})
+				day := time.Date(year, month+1, 1, 1, 0, 0, 0, time.UTC).AddDate(0, 0, -1)
+				for day.Weekday() != time.Sunday {
+					day = day.AddDate(0, 0, -1)
+				}
+				if month == time.November || month == time.April {
+					day = time.Date(year, month, 1, 7, 0, 0, 0, time.UTC) // first Sunday (US autumn / Australian autumn)
+					for day.Weekday() != time.Sunday {
+						day = day.AddDate(0, 0, 1)
+					}
+				}
+				now = day.Add(time.Duration(rng.I64n(int64(d)))).In(loc)
+				c.Count("nows_in_a_dst_zone_near_a_switch", 1)
+			}
+		}
 		if hasEnd {
 			switch rng.Intn(3) {
 			case 0:
